@@ -363,4 +363,136 @@ theorem good_int_long (c : List Nat) (o e : Nat) (sign : List Nat) (d1 : Nat) (x
       rw [← hv20]
       simpa [List.append_assoc] using this
 
+/-- `Good`, or an exact integer kind (then the value is below `2^64`) -/
+def NumGood (neg : Bool) (n d fin : Nat) (res : Option Res) : Prop :=
+  Good neg n d fin res ∨ (∃ r, res = some r ∧ (r.kind = .natural ∨ r.kind = .integer) ∧ n < 2 ^ 64 * d)
+
+theorem good_zero (neg : Bool) (d fin : Nat) :
+    Good neg 0 d fin (some ⟨.real, if neg then 0x8000000000000000 else 0, fin⟩) := by
+  refine ⟨_, rfl, rfl, Or.inr ⟨rfl, ?_, ?_, ?_⟩⟩
+  · cases neg <;> simp [b2n]
+  · have h0 : nearestMag 0 d = 0 := by unfold nearestMag; simp
+    cases neg <;> simp [h0, ulpDist]
+  · intro h; omega
+
+/-- `[+-]? d₁ xs (e|E) [+-]? ks`, at most 19 digits -/
+theorem good_int_short_exp (c : List Nat) (o e : Nat) (sign : List Nat) (d1 : Nat) (xs EP es ks : List Nat)
+    (hs : sign = [] ∨ sign = [43] ∨ sign = [45]) (h1 : isNonZeroDigit d1 = true)
+    (hxs : AllDigits xs) (hlen : xs.length ≤ 18) (hEP : ExpPart EP es ks) (hEP0 : EP ≠ [])
+    (hu : unitsAt c e o (sign ++ (d1 :: xs) ++ EP))
+    (hQ : o + sign.length + 1 + xs.length + EP.length = e) (hbound : e ≤ 99999000) :
+    Good (decide (sign = [45])) (valFrac (decVal (d1 :: xs)) (decVal ks) (decide (es = [45])) 0).1
+      (valFrac (decVal (d1 :: xs)) (decVal ks) (decide (es = [45])) 0).2 e (strToNum c o e) := by
+  rcases hEP with ⟨h, _, _⟩ | ⟨m, hmE, rfl, hes, hks, hk0⟩
+  · exact absurd h hEP0
+  · simp only [List.length_cons, List.length_append] at hQ
+    have hu2 : unitsAt c e o (sign ++ (d1 :: xs) ++ [m] ++ (es ++ ks)) := by
+      have e1 : sign ++ (d1 :: xs) ++ [m] ++ (es ++ ks) = sign ++ (d1 :: xs) ++ m :: (es ++ ks) := by simp
+      rw [e1]; exact hu
+    have := real_within_one_ulp_int_exp c o e sign d1 xs m es ks (by omega) hs h1 hxs hlen hmE hes hks hk0 hu2
+      (Or.inl (by omega))
+    rw [show o + sign.length + 1 + xs.length + 1 + es.length + ks.length = e by omega] at this
+    exact good_of_class_netExp this
+
+/-- digits only: an exact integer kind, or (beyond 64 bits, or below `-2^63`) a `Real` -/
+theorem good_int_only (c : List Nat) (o e : Nat) (sign : List Nat) (d1 : Nat) (xs : List Nat)
+    (hs : sign = [] ∨ sign = [43] ∨ sign = [45]) (h1 : isNonZeroDigit d1 = true) (hxs : AllDigits xs)
+    (hu : unitsAt c e o (sign ++ (d1 :: xs))) (hQ : o + sign.length + 1 + xs.length = e) (hbound : e ≤ 99999000) :
+    NumGood (decide (sign = [45])) (decVal (d1 :: xs)) 1 e (strToNum c o e) := by
+  have he : e < 2 ^ 32 := by omega
+  have hdig := isNonZeroDigit_isDigit h1
+  have hf : d1 ≠ 45 ∧ d1 ≠ 43 := by simp [isDigit] at hdig; omega
+  have hu' := (unitsAt_append c e sign (d1 :: xs) o).1 hu
+  have hu1 : unitsAt c e o (sign ++ [d1]) := (unitsAt_append c e sign [d1] o).2 ⟨hu'.1, hu'.2.1, trivial⟩
+  have hall : AllDigits (d1 :: xs) := by
+    intro y hy
+    rcases List.mem_cons.1 hy with h | h
+    · subst h; exact hdig
+    · exact hxs y h
+  have hendI : endsAt c e (o + sign.length + 1 + xs.length) contInt := Or.inl hQ
+  by_cases hfit : decVal (d1 :: xs) < 2 ^ 64
+  · by_cases hneg : decide (sign = [45]) = true → decVal (d1 :: xs) ≤ 2 ^ 63
+    · right
+      rw [strToNum_after_sign c o e sign d1 hs hu1 hf]
+      rw [afterSign_int c e _ (o + sign.length) d1 xs he h1 hxs hu'.2 hendI hfit hneg]
+      refine ⟨_, rfl, ?_, by omega⟩
+      cases decide (sign = [45]) <;> simp
+    · -- negative and below -2^63
+      left
+      have hn : decide (sign = [45]) = true := by
+        by_contra hc; exact hneg (fun h => absurd h hc)
+      have hbig : 2 ^ 63 < decVal (d1 :: xs) := by
+        by_contra hc; exact hneg (fun _ => by omega)
+      rw [strToNum_after_sign c o e sign d1 hs hu1 hf, hn]
+      rw [afterSign_negbig c e (o + sign.length) d1 xs he h1 hxs hu'.2 hendI hfit hbig]
+      have hlen20 : xs.length ≤ 19 := by
+        by_contra hc
+        have := decVal_ge d1 xs h1
+        have h20 : 10 ^ 20 ≤ 10 ^ xs.length := Nat.pow_le_pow_right (by decide) (by omega)
+        have : (2 : Nat) ^ 64 < 10 ^ 20 := by decide
+        omega
+      have hlen18 : 18 ≤ xs.length := by
+        by_contra hc
+        have hlt := decVal_lt_pow (d1 :: xs) hall
+        have : 10 ^ (d1 :: xs).length ≤ 10 ^ 18 := Nat.pow_le_pow_right (by decide) (by simp; omega)
+        have : (10 : Nat) ^ 18 < 2 ^ 63 := by decide
+        omega
+      rw [finishReal_end c e true _ _ _ _ false false _ (by omega) (by rw [hQ]; exact Or.inl rfl) (xs.length + 1) 0
+        (by simp only [b2n, Bool.not_false, Bool.true_and, Bool.false_eq_true, if_false]
+            rw [sub32_sub32 _ _ 0 (by omega) (by omega)]; omega)
+        (by simp) (by decide)]
+      have hne : netExp false 0 false 0 = (0, false) := by unfold netExp; simp
+      rw [hne, hQ]
+      have hge := decVal_ge d1 xs h1
+      have hlt := decVal_lt_pow (d1 :: xs) hall
+      have hl : (d1 :: xs).length = xs.length + 1 := by simp
+      rw [hl] at hlt
+      have h16 : 10 ^ 16 ≤ decVal (d1 :: xs) := by
+        have : (10 : Nat) ^ 16 ≤ 2 ^ 63 := by decide
+        omega
+      have := realResult_trunc true (decVal (d1 :: xs)) (xs.length + 1) 0 false e 0 (decVal (d1 :: xs)) h16 hfit
+        (by simpa using hge) hlt (by omega) (by omega) (by decide) (by simp) (by
+          have : 0 < decVal (d1 :: xs) := by omega
+          simp; omega)
+      simpa [truncFrac] using this
+  · -- does not fit 64 bits: at least 20 digits, the real path
+    left
+    have hlen19 : 19 ≤ xs.length := by
+      by_contra hc
+      have hlt := decVal_lt_pow (d1 :: xs) hall
+      have : 10 ^ (d1 :: xs).length ≤ 10 ^ 19 := Nat.pow_le_pow_right (by decide) (by simp; omega)
+      have : (10 : Nat) ^ 19 < 2 ^ 64 := by decide
+      omega
+    obtain ⟨x18, rest, hxeq, hl18⟩ : ∃ x18 rest, xs = x18 ++ rest ∧ x18.length = 18 :=
+      ⟨xs.take 18, xs.drop 18, (List.take_append_drop _ _).symm, by rw [List.length_take]; omega⟩
+    subst hxeq
+    have hx18 : AllDigits x18 := fun y hy => hxs y (by simp [hy])
+    have hrest : AllDigits rest := fun y hy => hxs y (by simp [hy])
+    have hrl : 1 ≤ rest.length := by simp at hlen19; omega
+    have hreal : ([] : List Nat) ≠ [] ∨ ([] : List Nat) ≠ [] ∨ 2 ≤ rest.length ∨
+        (∃ d20, rest = [d20] ∧ (decVal (d1 :: x18) > 0x1999999999999999 ∨
+          (decVal (d1 :: x18) = 0x1999999999999999 ∧ d20 > 53))) := by
+      by_cases h2 : 2 ≤ rest.length
+      · exact Or.inr (Or.inr (Or.inl h2))
+      · right; right; right
+        obtain ⟨d20, hr⟩ : ∃ d20, rest = [d20] := by
+          cases rest with
+          | nil => simp at hrl
+          | cons a b =>
+            cases b with
+            | nil => exact ⟨a, rfl⟩
+            | cons _ _ => simp at h2
+        refine ⟨d20, hr, ?_⟩
+        subst hr
+        have hd20 : isDigit d20 = true := hrest d20 (by simp)
+        have hv : decVal (d1 :: (x18 ++ [d20])) = decVal (d1 :: x18) * 10 + (d20 - 48) := by
+          rw [← List.cons_append, decVal_append_singleton]
+        rw [hv] at hfit
+        simp [isDigit] at hd20
+        have h2' : (0x1999999999999999 : Nat) * 10 + 6 = 2 ^ 64 := by decide
+        omega
+    have := good_int_long c o e sign d1 x18 rest [] [] [] [] [] hs h1 hx18 hl18 hrest (by intro y hy; cases hy)
+      (Or.inl ⟨rfl, rfl⟩) (Or.inl ⟨rfl, rfl, rfl⟩) (by simpa using hu) (by simp at hQ ⊢; omega) hbound hreal
+    simpa [valFrac, decVal] using this
+
 end Qentem.Props.C09
